@@ -392,6 +392,14 @@ pub fn judge_c01(cfg: &HybCfg, ops: &[HOp], trace: &HTrace) -> C01Judgement {
         if is_fetch && t.fetched.is_some() {
             flags.fetch_ran = true;
         }
+        if t.resolved_at.is_none() && !flags.hang && !matches!(trace.steps.last().map(|s| &s.ret), Some(HRet::Reopened(false))) {
+            // every io has been completed and the runtime is quiescent, yet the lookup never resolved
+            failures.push(Failure::new(
+                "lookup-never-resolves",
+                format!("lookup of key {key} issued at step {} never resolved although all device io completed and no task can make progress", t.issued_at),
+            ));
+            continue;
+        }
         let (Some(b), Some(TaskOut::Lookup(out))) = (t.resolved_at, &t.out) else { continue };
         let a = t.issued_at;
         if let Some(s) = shed_at {
